@@ -398,7 +398,13 @@ fn convert_prom_to_arrow(req: &WriteRequest) -> Result<RecordBatch> {
 
         for sample in &ts.samples {
             // Convert milliseconds to nanoseconds
-            timestamps.push(sample.timestamp_ms * 1_000_000);
+            let timestamp_ns = sample.timestamp_ms.checked_mul(1_000_000).ok_or_else(|| {
+                crate::Error::InvalidSchema(format!(
+                    "Timestamp {} ms out of range",
+                    sample.timestamp_ms
+                ))
+            })?;
+            timestamps.push(timestamp_ns);
             metric_names.push(metric_name.clone());
 
             // Detect value type and route to appropriate column
@@ -407,8 +413,12 @@ fn convert_prom_to_arrow(req: &WriteRequest) -> Result<RecordBatch> {
                 // Value is an integer (no fractional part)
                 let int_val = val as i64;
 
-                // Check if conversion back to f64 is lossless (no precision loss)
-                if (int_val as f64 - val).abs() < f64::EPSILON {
+                // Check if conversion back to f64 is lossless (no precision loss).
+                // `as i64` saturates and i64::MAX as f64 rounds up to 2^63, so the
+                // round trip alone accepts val == 2^63: require the i64 range as well.
+                if (-9223372036854775808.0..9223372036854775808.0).contains(&val)
+                    && (int_val as f64 - val).abs() < f64::EPSILON
+                {
                     // Lossless conversion - use integer column
                     if int_val >= 0 {
                         // Non-negative - use u64 column
